@@ -280,7 +280,7 @@ man = {
         "guard": "pornin_crrl_verif",
         "enable": "RUSTFLAGS='--cfg pornin_crrl_verif' for the drivers/harnesses that checks append to a scratch copy of /repo; '--cfg pornin_crrl_verif_cut' additionally turns on the in-repo hook (inline(never) on cut-point functions) for the protocol-glue checks",
         "baseline_off_cmd": "cd /repo && cargo test --workspace --no-fail-fast --offline",
-        "source_commits": ["7439f2c", "62d817a"],
+        "source_commits": ["7439f2c", "62d817a", "3783dbd"],
         "add_only": True,
     },
     "engines": [
